@@ -237,10 +237,23 @@ def check_rect(case):
         for f, c, what in (('=%s+1' % text, ctx, 'spelling'), ('=%s+1' % nm, None, 'identifier')):
             n_eval += 1
             got, err = inputs_of(f, c)
+            # names that decide the cause: a mis-shaped identifier explains whatever happens to it; a well-formed
+            # one of a rectangle touching the last row/column (xfd1 -> XFD1) is re-parsed inside the formula, and
+            # when that re-parse drops the maximum (XFD1 -> '1', then read as a number: no input at all) the
+            # dropped maximum explains the failure too.  Never applies to rectangles away from the last row/column.
+            if name_class(nm, rect) != 'proper':
+                inv = [nm]
+            else:
+                inv = [nm] + list(got or ())
+                if rect[2] == MAXC or rect[3] == MAXR:
+                    re_ = observe(f[1:-2], c).get('name')
+                    if isinstance(re_, str) and name_class(re_, rect) == 'max-elided':
+                        inv = [nm, re_]
             if err:
-                fails.append((sig('embed', [den], [nm], what + '-raises'), '%r in %r raised %s' % (f, c, err)))
+                fails.append((sig('embed', [den], inv if inv != [nm] + list(got or ()) else [nm], what + '-raises'),
+                              '%r in %r raised %s' % (f, c, err)))
             elif got != [nm]:
-                fails.append((sig('embed', [den], [nm] if name_class(nm, rect) != 'proper' else [nm] + list(got), what + '-other-inputs'),
+                fails.append((sig('embed', [den], inv, what + '-other-inputs'),
                               '%r in %r has inputs %r, expected [%r]' % (f, c, got, nm)))
         labels.append('embed')
     return R(_dedup(fails), nt=nt, labels=labels, n=n_eval)
